@@ -353,6 +353,7 @@ impl Prop for Reloads {
         let mut slow_probes = 0u64;
         let mut inflight_steps = 0u64;
         let mut merged_questions = 0u64;
+        let mut max_latency_ms = 0u64;
 
         for (i, s) in h.steps.iter().enumerate() {
             let ver = i + 1;
@@ -522,6 +523,7 @@ impl Prop for Reloads {
             for (t, r, pk, latency_ms) in seen.lock().unwrap().iter() {
                 // "keeps answering throughout": local names are answered from
                 // memory; seconds of delay mean the query was held up
+                max_latency_ms = max_latency_ms.max(*latency_ms);
                 if *latency_ms > 2_000 {
                     return out.fail("probe-stalled", format!("probe {:?} around reload {ver} was answered after {latency_ms} ms{}", PROBES[*pk], if h.slow_upstream && s.inflight { " (a question for the silent forwarder was in flight)" } else { "" }));
                 }
@@ -589,6 +591,7 @@ impl Prop for Reloads {
         out.counts.push(("probes-answered-while-load-blocked", slow_probes));
         out.counts.push(("reloads-with-an-upstream-question-in-flight", inflight_steps));
         out.counts.push(("any-questions-merging-local-and-upstream-data", merged_questions));
+        out.classes.push(format!("slowest-probe:{}", match max_latency_ms { 0..=99 => "<100ms", 100..=499 => "<500ms", 500..=999 => "<1s", _ => "1..2s" }));
         stop_upstream.store(true, Ordering::Relaxed);
         if slow_probes > 0 {
             out.classes.push("slow-reload".into());
